@@ -74,7 +74,7 @@ class AsyncGraphNodeExecutor:
             # Values bound on the inner graph are resolved inside it: they are not
             # broadcast inputs and bypass clone
             bound = node.graph.inputs.bound
-            inner_inputs = {k: v for k, v in inner_inputs.items() if not (k in bound and v is bound[k])}
+            inner_inputs = {k: v for k, v in inner_inputs.items() if k in original_params or not (k in bound and v is bound[k])}
             results = await self.runner.map(
                 node.graph,
                 inner_inputs,
